@@ -162,6 +162,10 @@ def gen_case(seed, tier):
         pat, txt = rng.choice([['b+', 'abbc'], ['[a-c]{2}', 'xabx'], ['a', 'ab']])
         for fn in rng.sample([None, 'search', 'match', 'fullmatch'], rng.randint(2, 3)):
             pool.append({'target': txt, 'spec': ['Coalesce', [['Match', ['Regex', pat, fn]]], {'default': 'no-match'}], 'kw': {}})
+    # spec objects of ONE class, some plain callables, some with an instance-level glomit hook
+    if rng.random() < 0.12:
+        for j, hook in enumerate(rng.sample([True, False, True, False], rng.randint(2, 3))):
+            pool.append({'target': 1, 'spec': ['flex', f'f{j}', hook], 'kw': {}})
     nops = rng.randint(4, 40 if tier == 'thorough' else 28)
     ops = []
     thorough = tier == 'thorough'
